@@ -49,6 +49,8 @@ type simDatagram struct {
 	src  int // emitting node index, -1 for the attacker
 	id   uint64
 	note string
+	// batched: already went through the receive batch queue (batchRx)
+	batched bool
 }
 
 var errSimWrite = errors.New("simulated sendto failure")
@@ -93,6 +95,9 @@ type simTun struct {
 	node *simNode
 	nets []netip.Prefix
 	out  [][]byte
+	// failNext: number of upcoming writes that fail (fault injection), after failSkip successful ones
+	failNext int
+	failSkip int
 	// routes maps an unsafe destination prefix to gateways (overlay.Device.RoutesFor)
 	routes map[netip.Prefix]routing.Gateways
 }
@@ -114,6 +119,14 @@ func (t *simTun) RoutesFor(a netip.Addr) routing.Gateways {
 func (t *simTun) Queues(int) ([]tio.Queue, error) { return []tio.Queue{t}, nil }
 func (t *simTun) Read() ([]tio.Packet, error)     { return nil, io.EOF }
 func (t *simTun) Write(p []byte) (int, error) {
+	if t.failNext > 0 && t.failSkip > 0 {
+		t.failSkip--
+	} else if t.failNext > 0 {
+		// fault injection: the device refuses the write (ENOBUFS/EIO); nothing is delivered
+		t.failNext--
+		t.w.rc.Count("fault.tun_write_error", 1)
+		return 0, errSimWrite
+	}
 	cp := append([]byte(nil), p...)
 	t.out = append(t.out, cp)
 	return len(p), nil
@@ -496,6 +509,9 @@ type simWorld struct {
 	partition map[[2]int]bool
 	blocked   map[[2]int]bool // topology: no direct underlay path i->j (applies in the quiet suffix too)
 	pending   map[int][]*simDatagram // delivered-at-now datagrams per node awaiting a batch flush
+	// batchRx: datagrams reaching a node at the same instant (or within a drawn coalescing window) are handed to
+	// it as one receive batch with one flush, as recvmmsg does; a batch of one takes the usual (observed) path
+	batchRx bool
 	withDNS   bool
 	steps     int
 	maxSteps  int
@@ -765,6 +781,15 @@ func (w *simWorld) deliver(d *simDatagram) {
 		w.at(to.stallEnd, "deliver-after-stall", func() { w.deliver(d) })
 		return
 	}
+	if w.batchRx && !d.batched {
+		w.pending[to.idx] = append(w.pending[to.idx], d)
+		if len(w.pending[to.idx]) == 1 {
+			idx := to.idx
+			win := time.Duration(w.tp.Choose(4)) * 250 * time.Microsecond
+			w.after(win, "recv-batch", func() { w.flushRx(idx) })
+		}
+		return
+	}
 	if w.observe != nil {
 		// observed delivery: digest the receiver before and after
 		if w.beforeDeliver != nil {
@@ -784,6 +809,46 @@ func (w *simWorld) deliver(d *simDatagram) {
 	w.rc.Count("ev.deliver", 1)
 	if w.afterDeliver != nil {
 		w.afterDeliver(to, d)
+	}
+}
+
+// flushRx hands a node everything that reached its socket since the batch was opened.
+func (w *simWorld) flushRx(idx int) {
+	q := w.pending[idx]
+	delete(w.pending, idx)
+	if len(q) == 0 || idx >= len(w.nodes) {
+		return
+	}
+	to := w.nodes[idx]
+	if !to.alive {
+		return
+	}
+	if w.now < to.stallEnd {
+		// the node stalled meanwhile: everything stays in its socket buffer
+		for _, d := range q {
+			w.deliver(d)
+		}
+		return
+	}
+	if len(q) == 1 {
+		q[0].batched = true
+		w.deliver(q[0])
+		q[0].batched = false
+		return
+	}
+	w.pump()
+	if w.beforeDeliver != nil {
+		for _, d := range q {
+			w.beforeDeliver(to, d)
+		}
+	}
+	to.recvBatch(q)
+	w.rc.Count("ev.deliver", int64(len(q)))
+	w.rc.Count("ev.recv_batch", 1)
+	if w.afterDeliver != nil {
+		for _, d := range q {
+			w.afterDeliver(to, d)
+		}
 	}
 }
 
